@@ -8,7 +8,8 @@ use serde::{Deserialize, Serialize};
 use std::mem::MaybeUninit;
 
 #[derive(Clone, Debug, Serialize, Deserialize)]
-pub enum Op { NewPrivate(u64), Generate, NewPayload(u64), Clone(u16), Drop(u16), MoveToHeap(u16), ClonePublicPart(u16), DropWhileUnwinding(u16), CloneFrom(u16, u16) }
+pub enum Op { NewPrivate(u64), Generate, NewPayload(u64), Clone(u16), Drop(u16), MoveToHeap(u16), ClonePublicPart(u16), DropWhileUnwinding(u16), CloneFrom(u16, u16), /// a whole key_encrypt + key_decrypt with every key supplied: whatever copies of them the library makes on the way are key containers too
+    Handshake(u64) }
 #[derive(Clone, Debug, Serialize, Deserialize)]
 pub struct Program { pub ops: Vec<Op>, pub final_order: Vec<u16> }
 
@@ -125,6 +126,22 @@ pub fn check(prog: &Program) -> CheckResult {
                     if (*d).as_bytes() != (*s).as_bytes() { result = Err("harness: clone_from did not copy the key".into()); }
                 } else if let (Some(d), Some(s)) = (dst_pay, src_pay) { (*d).clone_from(&*s); kinds.insert("clone_from/payload/in-place".into()); }
             } } },
+            Op::Handshake(k) => {
+                use kestrel_crypto as kc; use crate::kx;
+                let (ek, pk_, sk_, rk) = (nonzero_key(*k ^ 0x11), nonzero_key(*k ^ 0x22), nonzero_key(*k ^ 0x33), nonzero_key(*k ^ 0x44));
+                let (esk, epk, pl, ssk, spk, rsk, rpk) = (kx::sk(&ek), kx::pk(&kspec::x25519_base(&ek)), PayloadKey::new(&pk_), kx::sk(&sk_), kx::pk(&kspec::x25519_base(&sk_)), kx::sk(&rk), kx::pk(&kspec::x25519_base(&rk)));
+                let plain = [0x61u8; 40]; let mut ct: Vec<u8> = Vec::with_capacity(4096); let mut back: Vec<u8> = Vec::with_capacity(4096);
+                alloc::journal_start();
+                let er = kc::encrypt::key_encrypt(&mut &plain[..], &mut ct, &ssk, &spk, &rpk, Some(&esk), Some(&epk), Some(&pl), kc::AsymFileFormat::V1).is_ok();
+                let dr = er && kc::decrypt::key_decrypt(&mut &ct[..], &mut back, &rsk, &rpk, kc::AsymFileFormat::V1).is_ok();
+                let (blocks, overflow) = alloc::journal_stop();
+                if !er || !dr || back != plain { result = Err("harness: the handshake round trip failed".into()); }
+                else { // private keys travel through the library only inside PrivateKey containers (clones held by the handshake state). The payload
+                // key is left out: noise_decrypt also holds its bytes in a plain Vec<u8> (the decrypted handshake payload), which is a
+                // buffer, not a key container - outside this statement (noted in DESIGN.md section 11.3)
+                for (secret, what) in [(&ek, "ephemeral private key"), (&sk_, "sender's private key"), (&rk, "recipient's private key")] { if let Some(n) = released_copy(secret, &blocks) { result = Err(format!("during key_encrypt / key_decrypt with all keys supplied a heap block holding a copy of the {} was released unerased ({} of 32 bytes agree)", what, n)); break; } } }
+                kinds.insert(format!("handshake/{}blocks{}", if blocks.len() > 20 { ">20" } else { "<=20" }, if overflow { "/journal-overflow" } else { "" }));
+            },
             Op::DropWhileUnwinding(x) => if let Some(i) = sel(*x) {
                 // the value is owned by a frame that panics: its destructor runs during unwinding
                 let (h, o) = held[i].take().unwrap(); if o == "clone" { clone_dropped = true; }
@@ -149,7 +166,7 @@ pub fn check(prog: &Program) -> CheckResult {
 }
 
 pub fn strat() -> impl Strategy<Value = Program> {
-    let op = prop_oneof![2 => any::<u64>().prop_map(Op::NewPrivate), 1 => Just(Op::Generate), 2 => any::<u64>().prop_map(Op::NewPayload), 4 => any::<u16>().prop_map(Op::Clone), 3 => any::<u16>().prop_map(Op::Drop), 2 => any::<u16>().prop_map(Op::MoveToHeap), 1 => any::<u16>().prop_map(Op::ClonePublicPart), 1 => any::<u16>().prop_map(Op::DropWhileUnwinding), 2 => (any::<u16>(), any::<u16>()).prop_map(|(a, b)| Op::CloneFrom(a, b))];
+    let op = prop_oneof![2 => any::<u64>().prop_map(Op::NewPrivate), 1 => Just(Op::Generate), 2 => any::<u64>().prop_map(Op::NewPayload), 4 => any::<u16>().prop_map(Op::Clone), 3 => any::<u16>().prop_map(Op::Drop), 2 => any::<u16>().prop_map(Op::MoveToHeap), 1 => any::<u16>().prop_map(Op::ClonePublicPart), 1 => any::<u16>().prop_map(Op::DropWhileUnwinding), 2 => (any::<u16>(), any::<u16>()).prop_map(|(a, b)| Op::CloneFrom(a, b)), 1 => any::<u64>().prop_map(Op::Handshake)];
     (proptest::collection::vec(op, 1..30), proptest::collection::vec(any::<u16>(), 0..12)).prop_map(|(ops, final_order)| Program { ops, final_order })
 }
 
@@ -159,7 +176,7 @@ pub fn run(ctx: &Ctx) {
     ctx.pbt("clone_drop_programs", ctx.n(600_000, 6_000_000), strat, check);
     // fixed minimal programs: each constructor, dropped directly and via a clone
     let fixed = vec![
-        Program { ops: vec![Op::NewPrivate(1)], final_order: vec![] }, Program { ops: vec![Op::Generate], final_order: vec![] }, Program { ops: vec![Op::NewPayload(1)], final_order: vec![] },
+        Program { ops: vec![Op::NewPrivate(1)], final_order: vec![] }, Program { ops: vec![Op::Handshake(1)], final_order: vec![] }, Program { ops: vec![Op::Generate, Op::Handshake(2), Op::Handshake(2)], final_order: vec![] }, Program { ops: vec![Op::Generate], final_order: vec![] }, Program { ops: vec![Op::NewPayload(1)], final_order: vec![] },
         Program { ops: vec![Op::NewPrivate(1), Op::Clone(0), Op::Drop(0)], final_order: vec![] }, Program { ops: vec![Op::NewPayload(1), Op::Clone(0), Op::Drop(65535)], final_order: vec![] },
         Program { ops: vec![Op::Generate, Op::Clone(0), Op::MoveToHeap(0), Op::MoveToHeap(65535)], final_order: vec![1] }, Program { ops: vec![Op::NewPayload(3), Op::MoveToHeap(0), Op::Clone(0)], final_order: vec![] },
         Program { ops: vec![Op::NewPrivate(3), Op::Clone(0), Op::DropWhileUnwinding(0), Op::DropWhileUnwinding(0)], final_order: vec![] },
